@@ -41,6 +41,9 @@ pub struct Sess {
     pub t0_ns: u64,
     pub uid_next: u32,
     pub uid_len: HashMap<u32, usize>,
+    /// Reliable packets too short to carry their uid (0..3 bytes), outstanding per (slot, sent by the server), oldest first:
+    /// an arriving short payload of that length is the oldest one not yet delivered (all of them are Reliable, so all arrive)
+    pub short_out: HashMap<(usize, bool), Vec<(u32, usize)>>,
     pub dead: bool,
     pub calls: u64,
     pub quiet_stepend: HashMap<String, u64>, // ep -> time of the last logged StepEnd
@@ -63,7 +66,8 @@ pub fn describe_frame(bytes: &[u8]) -> Value {
         None => json!({"type": "garbage"}),
         Some(uv::Frame::HandshakeSynFrame(f)) => json!({"type": "SYN", "nonce": (f.nonce >> 1) as i64, "nonce_lsb": f.nonce & 1, "version": f.version,
             "max_receive_rate": (f.max_receive_rate as i64).min(2_000_000_000), "max_packet_size": (f.max_packet_size as i64).min(2_000_000_000), "max_receive_alloc": (f.max_receive_alloc as i64).min(2_000_000_000)}),
-        Some(uv::Frame::HandshakeSynAckFrame(f)) => json!({"type": "SYNACK", "nonce": (f.nonce >> 1) as i64, "nonce_lsb": f.nonce & 1, "nonce_ack": (f.nonce_ack >> 1) as i64, "nonce_ack_lsb": f.nonce_ack & 1}),
+        Some(uv::Frame::HandshakeSynAckFrame(f)) => json!({"type": "SYNACK", "nonce": (f.nonce >> 1) as i64, "nonce_lsb": f.nonce & 1, "nonce_ack": (f.nonce_ack >> 1) as i64, "nonce_ack_lsb": f.nonce_ack & 1,
+            "max_receive_rate": (f.max_receive_rate as i64).min(2_000_000_000), "max_packet_size": (f.max_packet_size as i64).min(2_000_000_000), "max_receive_alloc": (f.max_receive_alloc as i64).min(2_000_000_000)}),
         Some(uv::Frame::HandshakeAckFrame(f)) => json!({"type": "ACK", "nonce_ack": (f.nonce_ack >> 1) as i64, "nonce_ack_lsb": f.nonce_ack & 1}),
         Some(uv::Frame::HandshakeErrorFrame(f)) => json!({"type": "ERR", "nonce_ack": (f.nonce_ack >> 1) as i64, "nonce_ack_lsb": f.nonce_ack & 1,
             "err": match f.error { uv::HandshakeErrorType::Version => "Version", uv::HandshakeErrorType::Config => "Config", uv::HandshakeErrorType::ServerFull => "ServerFull" }}),
@@ -82,7 +86,7 @@ impl Sess {
         let server = server::Server::bind("127.0.0.1:0", cfg).expect("bind");
         let server_addr = server.address();
         Self { server: Some(server), server_addr, slots: Vec::new(), raw: Vec::new(), held: Vec::new(), wire_idx: 0, t0_ns: t0,
-               uid_next: 1, uid_len: HashMap::new(), dead: false, calls: 0, quiet_stepend: HashMap::new(), fwd_since_step: HashMap::new(), full_steps: std::env::var("UVH_FULL_STEPS").is_ok() }
+               uid_next: 1, uid_len: HashMap::new(), short_out: HashMap::new(), dead: false, calls: 0, quiet_stepend: HashMap::new(), fwd_since_step: HashMap::new(), full_steps: std::env::var("UVH_FULL_STEPS").is_ok() }
     }
 
     pub fn t_ms(&self) -> u64 {
@@ -144,10 +148,13 @@ impl Sess {
                 self.slots[i].client_addr = Some(c.local_address());
                 self.slots[i].client = Some(c);
                 self.slots[i].connected_at = Some(self.t_ms());
+                self.short_out.remove(&(i, true));
+                self.short_out.remove(&(i, false));
                 let c = &self.slots[i].cfg;
                 tr.line(json!({"ev": "Connect", "ep": self.slots[i].name, "t": self.t_ms(),
                     "timeout": c.active_timeout_ms.min(2_000_000_000), "keepalive": if c.keepalive { c.keepalive_interval_ms.min(2_000_000_000) as i64 } else { -1 },
-                    "max_packet_size": c.max_packet_size.min(2_000_000_000), "max_receive_alloc": c.max_receive_alloc.min(2_000_000_000)}));
+                    "max_packet_size": c.max_packet_size.min(2_000_000_000), "max_receive_alloc": c.max_receive_alloc.min(2_000_000_000),
+                    "max_send_rate": c.max_send_rate.min(2_000_000_000), "max_receive_rate": c.max_receive_rate.min(2_000_000_000)}));
             }
             Ok(Err(e)) => {
                 eprintln!("TOOL-ERROR: connect failed: {}", e);
@@ -165,15 +172,37 @@ impl Sess {
         let t = self.t_ms();
         for ev in evs.into_iter() {
             match ev {
-                client::Event::Connect => tr.line(json!({"ev": "Event", "ep": name, "peer": "s", "kind": "Connect", "t": t})),
+                client::Event::Connect => {
+                    tr.line(json!({"ev": "Event", "ep": name, "peer": "s", "kind": "Connect", "t": t}));
+                    // the limits this end holds for the connection it has just reported (cfg(uflow_verif) accessor)
+                    if let Some(l) = self.slots[i].client.as_ref().and_then(|c| c.verif_limits()) {
+                        tr.line(json!({"ev": "Limits", "ep": name, "peer": "s", "t": t, "tx_alloc": l.tx_alloc_limit.min(2_000_000_000), "rx_alloc": l.rx_alloc_limit.min(2_000_000_000),
+                            "rate": (l.max_send_rate as u64).min(2_000_000_000)}));
+                    }
+                }
                 client::Event::Disconnect => tr.line(json!({"ev": "Event", "ep": name, "peer": "s", "kind": "Disconnect", "t": t})),
                 client::Event::Error(e) => tr.line(json!({"ev": "Event", "ep": name, "peer": "s", "kind": "Error", "err": format!("{:?}", e), "t": t})),
                 client::Event::Receive(p) => {
-                    let (uid, m) = self.identify(&p);
+                    let (uid, m) = self.identify_from(Some(i), true, &p);
                     tr.line(json!({"ev": "Event", "ep": name, "peer": "s", "kind": "Receive", "uid": uid, "match": m, "len": p.len(), "t": t}));
                 }
             }
         }
+    }
+
+    fn identify_from(&mut self, slot: Option<usize>, from_server: bool, p: &[u8]) -> (i64, bool) {
+        if p.len() < 4 {
+            if let Some(i) = slot {
+                if let Some(q) = self.short_out.get_mut(&(i, from_server)) {
+                    if let Some(pos) = q.iter().position(|(u, l)| *l == p.len() && payload(*u, *l)[..] == p[..]) {
+                        let (u, _) = q.remove(pos);
+                        return (u as i64, true);
+                    }
+                }
+            }
+            return (-1, false);
+        }
+        self.identify(p)
     }
 
     fn identify(&self, p: &[u8]) -> (i64, bool) {
@@ -231,11 +260,19 @@ impl Sess {
                 let log_end = busy || self.full_steps || t >= self.quiet_stepend.get("s").copied().unwrap_or(0) + 1000;
                 for ev in evs.into_iter() {
                     match ev {
-                        server::Event::Connect(a) => tr.line(json!({"ev": "Event", "ep": "s", "peer": self.peer_name(&a), "kind": "Connect", "t": t})),
+                        server::Event::Connect(a) => {
+                            tr.line(json!({"ev": "Event", "ep": "s", "peer": self.peer_name(&a), "kind": "Connect", "t": t}));
+                            let lim = self.server.as_ref().and_then(|s| s.client(&a)).and_then(|rc| rc.borrow().verif_limits());
+                            if let Some(l) = lim {
+                                tr.line(json!({"ev": "Limits", "ep": "s", "peer": self.peer_name(&a), "t": t, "tx_alloc": l.tx_alloc_limit.min(2_000_000_000),
+                                    "rx_alloc": l.rx_alloc_limit.min(2_000_000_000), "rate": (l.max_send_rate as u64).min(2_000_000_000)}));
+                            }
+                        }
                         server::Event::Disconnect(a) => tr.line(json!({"ev": "Event", "ep": "s", "peer": self.peer_name(&a), "kind": "Disconnect", "t": t})),
                         server::Event::Error(a, e) => tr.line(json!({"ev": "Event", "ep": "s", "peer": self.peer_name(&a), "kind": "Error", "err": format!("{:?}", e), "t": t})),
                         server::Event::Receive(a, p) => {
-                            let (uid, m) = self.identify(&p);
+                            let slot = self.slots.iter().position(|c| c.relay_addr == a);
+                            let (uid, m) = self.identify_from(slot, false, &p);
                             tr.line(json!({"ev": "Event", "ep": "s", "peer": self.peer_name(&a), "kind": "Receive", "uid": uid, "match": m, "len": p.len(), "t": t}));
                         }
                     }
@@ -273,8 +310,13 @@ impl Sess {
         }
         let uid = self.uid_next;
         self.uid_next += 1;
-        let len = len.max(4);
+        // payloads carry their uid in the first four bytes; shorter ones (empty packets) are allowed for Reliable packets
+        // only and are identified by order of submission (see short_out)
+        let len = if mode == SendMode::Reliable { len } else { len.max(4) };
         self.uid_len.insert(uid, len);
+        if len < 4 {
+            self.short_out.entry((i, from_server)).or_default().push((uid, len));
+        }
         let data = payload(uid, len);
         let name = self.slots[i].name.clone();
         let (ep, peer) = if from_server { ("s".to_string(), name.clone()) } else { (name.clone(), "s".to_string()) };
